@@ -16,6 +16,8 @@ TRUSTED = ['interface contracts of Job::Call / Job::Drop (V_Call, V_Drop) and IE
 DROPPED = ['Strand : private Job, public IExecutor - the two base sub-objects are one C struct; Mark() is the address of the object (the Node base)',
            'unbounded jobs: `->next` reads / writes of inbox nodes go through NODE_NEXT / NODE_SET_NEXT over a ghost pool with a reversal frontier; a link write that is not the next reversal step is a SHAPE guard (undecided, exit 2), the bounded job with real memory decides such code']
 ASSUMPTIONS = ['the underlying executor finishes the strand job by exactly one of Call or Drop (C05 interface contract), so exactly one role instance runs a batch']
+# real-code drivers that exercise what this unit proves (thorough tier: sanity run on the tree under check)
+DRIVERS = [('strand_seq.cpp', [], 'asan')]
 
 COMMON = r'''
 #include "vf.h"
